@@ -138,6 +138,30 @@ def run(ctx):
     pscope = lib.local_scope(F, pb_)
     ins = [c for x in pscope for c in x.calls if re.search(r"rangemap::.*::insert$", c.fn or "")]
     other = [c for x in pscope for c in x.calls if re.search(r"rangemap::.*::(remove|clear|gaps|split_off)$", c.fn or "")]
+    # ... for every definition: once the code length was accepted, no way through `put` returns without an insert (a "this is
+    # already defined" shortcut keeps an older definition that a later one was meant to replace)
+    bypass = []
+    for x in pscope:
+        if x.kind == "Closure":
+            continue
+        ib = {c.bb for c in x.calls if re.search(r"rangemap::.*::insert$", c.fn or "")} | {c.bb for c in x.calls if c.local and any(c.name == y.path for y in pscope if y is not x)}
+        if not ib:
+            continue
+        # a loop that inserts once per element counts as passed when it is reached (it may have nothing to go through)
+        ib |= {h for h, bl in x.loops().items() if bl & ib}
+        rets = [bi for bi in range(x.n) if x.term(bi)["k"] == "return"]
+        rejected = set()
+        for bi in range(x.n):
+            t = x.term(bi)
+            if t["k"] == "switch" and "code_len" in x.oname(t["d"], 4):
+                for y in [q for _v, q in t["tg"]] + [t["else"]]:
+                    if not any(y == i or x.can_reach(y, i) for i in ib):
+                        rejected.add(y)
+        for r in rets:
+            if r not in ib and (r == 0 or x.can_reach(0, r, avoid=ib | rejected)):
+                bypass.append("%s line %s" % (F.canon_of(x), x.term(r).get("ln")))
+    ctx.ob(R, "every-definition-is-entered", not bypass, "every path through put that accepts the code length inserts into the interval map", pb_.where(),
+           what="ToUnicodeCMap::put can return without entering the definition (%s): a later definition of a code does not replace the earlier one" % bypass)
     ctx.ob(R, "last-definition-wins", len(ins) >= 1 and not other, "put inserts into the interval map (insert overwrites what it overlaps)", pb_.where(), what="put no longer inserts with overwrite semantics")
     # 4a. what is stored does not depend on where the interval starts: the last unit of a multi-unit target is stored relative to
     # code 0 (wrapping_sub of the range's first code) and read back with wrapping_add of the code; an array target is entered one
@@ -243,6 +267,21 @@ def run(ctx):
     ups = [u for u in __import__("term").counter_updates(e, set(range(e.n)), None) if lenloc is not None and u[3] == e.pname({"l": lenloc, "p": []}, 2)]
     ctx.ob("R-ORDER", "lengths-tried-increasing", len(ups) == 1 and ups[0][1] == "Add" and ups[0][2] == 1, "the candidate code grows by one byte per step and is looked up at each length", e.where(),
            what="bytes_to_string no longer tries code lengths 1, 2, 3, 4 in increasing order")
+    # 6a. ... by asking the CMap every time: the lookup stands on every turn of the loop over the bytes (an answer remembered from
+    # an earlier code is only right if the remembered key is the code *and its length*; the map is the one place that knows)
+    import term as _term
+    gets = [c for c in e.calls if c.local and c.cname.endswith("ToUnicodeCMap::get")]
+    lps = e.loops()
+    okl = bool(gets)
+    for c in gets:
+        inl = [(h, bl) for h, bl in lps.items() if c.bb in bl]
+        if not inl:
+            okl = False
+            continue
+        h, bl = min(inl, key=lambda t: len(t[1]))
+        okl = okl and _term.every_cycle_passes(e, h, bl, {g.bb for g in gets if g.bb in bl})
+    ctx.ob("R-ORDER", "every-code-is-looked-up", okl, "ToUnicodeCMap::get is called on every turn of the loop over the bytes", e.where(),
+           what="bytes_to_string can go round its loop without asking the CMap (a shortcut or a remembered answer): codes of different lengths with the same numeric value, or a repeated code, are decoded from the wrong entry")
     # 7. surrogate pairs: decoding UTF-16 units as UTF-16BE
     dec = [c for c in e.calls if re.search(r"encoding_rs::Encoding::decode", c.fn or "")]
     ctx.ob("R-ORDER", "utf16-units-decoded-as-utf16", len(dec) >= 1, "the collected units are decoded as UTF-16BE (surrogate pairs become one character)", e.where(), what="the units produced by the CMap are no longer decoded as UTF-16")
